@@ -425,11 +425,22 @@ def find_roles(facts, tables, disp):
                     if "check" not in roles or (here is not None and roles["check"][1] is None):
                         roles["check"] = (c["key"], here)
                     continue
+                if len(it["inputs"]) == 2 and it["output"] == "bool":
+                    # the length predicate asked by the dispatcher (or a helper of it) directly: the length check need
+                    # not be a function of its own (`if !info.is_valid_len(&n) { return Err(WrongArgumentCount{..}) }`)
+                    if "valid_direct" not in roles or (here is not None and roles["valid_direct"][1] is None):
+                        roles["valid_direct"] = (c["key"], here)
+                    continue
             cb_ = facts.body(c["key"])
             if cb_ is not None and cb_.kind == "fn" and c["key"] not in table_fns and len(seen) < 40 and not (it or {}).get("exported"):
                 todo.append(c["key"])
-    if "unary" not in roles or "check" not in roles:
+    if "unary" not in roles or ("check" not in roles and "valid_direct" not in roles):
         raise Inconclusive("length-check / unary-acceptance calls not found in the dispatcher or its helpers")
+    if "check" not in roles:
+        # no length-check function: the dispatcher asks the length predicate itself (K3 is then read on its paths)
+        roles["check"] = None
+        roles["valid"] = (roles["valid_direct"][0], None)
+        return roles
     chk = facts.body(roles["check"][0])
     # the predicate may be asked inside a closure of the check (`Some(len).filter(|l| self.is_valid_len(l)).ok_or_else(..)`)
     for cb_ in [chk] + [x for x in facts.bodies.values() if x.kind == "closure" and x.key.startswith(chk.key + "::{closure#")]:
@@ -710,8 +721,22 @@ def k34_paths(ctx, facts, disp, roles, cfg):
     from .dispatch import GuardReader, PHF_GET
     from . import pathsum
     b = disp.body
-    unary_key, chk_key = roles["unary"][0], roles["check"][0]
-    rd = GuardReader(disp, skip={unary_key, chk_key})
+    unary_key, chk_key = roles["unary"][0], (roles["check"][0] if roles["check"] else None)
+    vkey = roles["valid"][0]
+    # without a length-check function the dispatcher asks the length predicate itself: the check *is* the atom
+    # `predicate(descriptor, &len(list)) = true` on the path, and its failure side is read on the dispatcher's paths
+    skip_ = {unary_key, chk_key} if chk_key else {unary_key, vkey}
+    rd = GuardReader(disp, skip=skip_)
+    if rd.readable and rd.truncated_success:
+        # a loop on the way to a success exit: when all it does is move the items of an iterator into a vector it is read
+        # as the `extend` it is (rules/x_loops.py); any other loop stays unread
+        from . import x_loops
+        import copy as _copy
+        nb = x_loops.collect_view(b)
+        if nb is not None:
+            disp = _copy.copy(disp)
+            disp.body = b = nb
+            rd = GuardReader(disp, skip=skip_)
     w = rd.w
     where = b.where(disp.success[0][0], disp.success[0][1]) if disp.success else b.where()
     if not rd.readable or rd.truncated_success or not rd.success:
@@ -753,6 +778,18 @@ def k34_paths(ctx, facts, disp, roles, cfg):
             if ev2 is not ev and any(isinstance(a, tuple) and expr_mentions(a, same) for a in ev2[2]):
                 return True
         return False
+
+    def valid_on(p):
+        """[(truth, [argument expressions])] of the questions to the length predicate on p."""
+        out = []
+        for key, val0 in p.order:
+            rw = w.raw.get((key, p.atoms.get(key, val0))) or w.raw.get((key, val0))
+            if rw and rw[0][0] == "call" and rw[0][1] and rw[0][1].get("key") == vkey and isinstance(rw[1], bool):
+                # the arguments as they are on *this* path (the atom's recorded question is shared by all paths
+                # through the call site): from the path's own call event at that site
+                evs = [ev for ev in p.events if ev[0] == "call" and ev[1] and ev[1].get("key") == vkey and len(rw[0]) > 3 and ev[3] == rw[0][3]]
+                out.append((rw[1], list(evs[-1][2]) if evs else list(rw[0][2])))
+        return out
 
     def unary_on(p):
         """truth of the unary-acceptance call on p (None: not asked)."""
@@ -848,14 +885,25 @@ def k34_paths(ctx, facts, disp, roles, cfg):
         inner = strip_refs(strip_refs(p.result)[2][0])
         payload = strip_refs(inner[2][0]) if inner[2] else None
         fields = [strip_refs(f_) for f_ in payload[2]] if payload and payload[0] == "agg" else []
-        checks = [ev for ev in p.events if ev[0] == "call" and ev[1] and ev[1].get("key") == chk_key]
-        passed = [ev for ev in checks if outcome(p, ("call", ev[1], ev[2], ev[3])) == "Ok"]
-        if not passed:
-            if checks and all(outcome(p, ("call", ev[1], ev[2], ev[3])) is None for ev in checks) and any(consumed(p, ev) for ev in checks):
-                unread.append(("K3.dominated", "the outcome of the length check is consumed in a way that is not read"))
-            else:
-                dom_bad.append(p)
-            continue
+        if chk_key is None:
+            asked = valid_on(p)
+            calls_ = [ev for ev in p.events if ev[0] == "call" and ev[1] and ev[1].get("key") == vkey]
+            passed = [("call", None, args_, None) for truth_, args_ in asked if truth_]
+            if not passed:
+                if calls_ and not asked and any(consumed(p, ev) for ev in calls_):
+                    unread.append(("K3.dominated", "the answer of the length predicate is consumed in a way that is not read"))
+                else:
+                    dom_bad.append(p)
+                continue
+        else:
+            checks = [ev for ev in p.events if ev[0] == "call" and ev[1] and ev[1].get("key") == chk_key]
+            passed = [ev for ev in checks if outcome(p, ("call", ev[1], ev[2], ev[3])) == "Ok"]
+            if not passed:
+                if checks and all(outcome(p, ("call", ev[1], ev[2], ev[3])) is None for ev in checks) and any(consumed(p, ev) for ev in checks):
+                    unread.append(("K3.dominated", "the outcome of the length check is consumed in a way that is not read"))
+                else:
+                    dom_bad.append(p)
+                continue
         vec = None
         for ev in passed:
             le = strip_refs(ev[2][1]) if len(ev[2]) > 1 else None
@@ -893,10 +941,32 @@ def k34_paths(ctx, facts, disp, roles, cfg):
     ctx.check(not dom_bad, "K3.dominated", "Ok(Some) exit in %s" % cfg, "a parsed operation is returned on %d path(s) that do not pass the success outcome of the length check" % len(dom_bad), where=where, nontrivial=True, fn=b.key, sample={"success paths": len(rd.success)})
     ctx.check(not same_bad, "K3.same-vector", "checked length is that of the returned operands (%s)" % cfg, "the length handed to the length check (%s) is not the length of the returned operand vector" % same_bad[:1], where=where, nontrivial=True, fn=b.key)
     # the check itself: Err exactly when the predicate is false (decision cases of the check)
-    cb = facts.body(chk_key)
-    vkey = roles["valid"][0]
-    cw = x_ipaths.summarize(cb, x_ipaths.loop_free_local(facts, {vkey}), max_paths=200)
-    if cw.overflow or not cw.paths or any(q.truncated for q in cw.paths):
+    cb = facts.body(chk_key) if chk_key else None
+    if cb is None:
+        # … read on the dispatcher: every path on which the predicate answered false ends in Err (answered true →
+        # the success exits above), and the predicate is asked about (a descriptor, the counted length) only
+        neg_bad, neg_n = [], 0
+        for p in w.paths:
+            if p.truncated:
+                continue
+            for truth_, args_ in valid_on(p):
+                if truth_:
+                    continue
+                neg_n += 1
+                r = strip_refs(p.result) if p.result is not None else ("?",)
+                is_err = (r[0] == "agg" and r[1].get("variant") == "Err") or (r[0] == "call" and r[1] and r[1]["path"].endswith("::from_residual") and "Result" in r[1]["path"])
+                if not is_err:
+                    neg_bad.append(show_expr(r)[:80])
+        if neg_n:
+            ctx.check(not neg_bad, "K3.check-Err", "predicate False → Err (%s)" % cfg, "when the length predicate is false the dispatcher returns %s instead of an error" % neg_bad[:1], where=where, nontrivial=True, fn=b.key)
+        else:
+            ctx.unread("K3.check-Err", "predicate False → Err (%s)" % cfg, "no path on which the length predicate answers false was read", where=where, fn=b.key)
+        cw = None
+    else:
+        cw = x_ipaths.summarize(cb, x_ipaths.loop_free_local(facts, {vkey}), max_paths=200)
+    if cw is None:
+        pass
+    elif cw.overflow or not cw.paths or any(q.truncated for q in cw.paths):
         ctx.unread("K3.check-Ok", "predicate → outcome (%s)" % cfg, "the length check has loops", where=cb.where(), fn=cb.key)
     else:
         for q in cw.paths:
@@ -951,7 +1021,7 @@ def k34_paths(ctx, facts, disp, roles, cfg):
 def k34_structural(ctx, facts, disp, roles, cfg):
     """K3/K4 read off the statement structure of the dispatcher (dominating edges, the two-way join of the operand
     vector).  Applicable when the dispatcher itself calls the unary predicate and the length check."""
-    if roles["unary"][1] is None or roles["check"][1] is None:
+    if roles["unary"][1] is None or roles["check"] is None or roles["check"][1] is None:
         raise Inconclusive("the unary predicate / length check are not called by the dispatcher itself")
     # ---- K3: dominance of the length check
     b = disp.body
